@@ -406,3 +406,22 @@ def run(ctx):
         "long double and flexible-array aggregates excluded (cproc cannot describe long double at all)",
         "classification model audited against clang 14's LLVM IR lowering of `void f(T)` for the three targets",
     ]
+
+
+def replay(ctx, path):
+    rec = json.load(open(path))
+    case = rec["case"]
+    print("key     :", rec["key"])
+    print("what    :", rec["what"])
+    objdir = vlib.build("plain")
+    if "source" in case and "descriptor" in case:
+        src = case["source"] + "\n%s f(%s p) { return p; }\n" % (case["source"].split("{")[0].strip(), case["source"].split("{")[0].strip())
+        rc, out, err = vlib.cproc(objdir, src, case["target"])
+        print("target  :", case["target"])
+        print("source  :", src)
+        print("cproc   :", rc, err.strip()[:200])
+        print("\n".join(l for l in out.splitlines() if l.startswith("type")))
+        print("verdict :", json.dumps(case["verdict"]))
+    else:
+        print(json.dumps(case, indent=1)[:4000])
+    return 0
